@@ -150,6 +150,16 @@ var routes = ev.Register(&ev.P[momentCase]{
 				}
 			}
 		}
+		// the hour object's slot bounds bracket the moment and lie in the same slot as the hour pillar's branch
+		hm := fmt.Sprintf("%02d:%02d", t.H, t.Mi)
+		lo, hi := lt.GetMinHm(), lt.GetMaxHm()
+		wlo, whi := fmt.Sprintf("%02d:00", t.H-1+t.H%2), fmt.Sprintf("%02d:59", t.H+t.H%2) // odd hours open a slot, even hours close it
+		if t.H == 0 || t.H == 23 {                                                         // the 子 slot is cut at midnight
+			wlo, whi = fmt.Sprintf("%02d:00", t.H), fmt.Sprintf("%02d:59", t.H)
+		}
+		if lo != wlo || hi != whi || !(lo <= hm && hm <= hi) || LunarUtil.GetTimeZhiIndex(lo) != l.GetTimeZhiIndex() || LunarUtil.GetTimeZhiIndex(hi) != l.GetTimeZhiIndex() {
+			return fail("hour object's slot bounds GetMinHm..GetMaxHm vs the moment "+hm+" (branch "+l.GetTimeZhi()+")", lo, hi)
+		}
 		ly := calendar.NewLunarYear(l.GetYear())
 		for _, p := range yearPairs {
 			if a, b := call(l, p.A), call(ly, p.B); a != b {
@@ -255,7 +265,7 @@ var routes = ev.Register(&ev.P[momentCase]{
 		ec.SetSect(2)
 		return nil
 	},
-	Class: func(c momentCase) ([]string, bool) { return classMoment(c.T) },
+	Class:   func(c momentCase) ([]string, bool) { return classMoment(c.T) },
 	Require: []string{"hour23", "afterDecemberSolstice", "solsticeDay", "leapMonth", "jieDayBeforeInstant"},
 })
 
